@@ -65,7 +65,9 @@ def run(ctx, proofs_ok):
     from checks import cleanwrite
     pdir = f"{ctx.work}/pebble-shapes"
     shutil.rmtree(pdir, ignore_errors=True)
-    ev = {"reopen": 0.06, "gc": 0.06, "flush": 0.03, "api Clear": 0.004}
+    # rejected backend writes during eviction passes and flushes too: what a failed write leaves behind (a record wrongly
+    # marked clean, a stale address) only shows at the next Close + Open
+    ev = {"reopen": 0.06, "gc": 0.06, "flush": 0.03, "api Clear": 0.004, "fail": 0.03}
     apicheck.run_streams(ctx, [
         {"label": "all families with frequent close/reopen cycles (memory backend object, deterministic clock, expiry)",
          "fams": ["exp", "str", "key", "list", "hash", "set", "zset"], "n": (2500, 6000), "count": (3, 30), "ft": True,
